@@ -1,6 +1,8 @@
 package analysis
 
 import (
+	"fmt"
+
 	"github.com/go-openapi/spec"
 	"github.com/go-openapi/strfmt"
 )
@@ -118,7 +120,7 @@ func (a *AnalyzedSchema) inferFromRef() error {
 
 		sch := new(spec.Schema)
 		sch.Ref = a.schema.Ref
-		err := spec.ExpandSchema(sch, a.root, nil)
+		err := expandSchema(sch, a.root)
 		if err != nil {
 			return err
 		}
@@ -139,6 +141,20 @@ func (a *AnalyzedSchema) inferFromRef() error {
 	}
 
 	return nil
+}
+
+// expandSchema expands a schema against its root document.
+//
+// The expander panics on a $ref which resolves to a keyword its target does not carry
+// (e.g. "#/definitions/x/additionalProperties" when x is not a map): this is reported as an error.
+func expandSchema(sch *spec.Schema, root interface{}) (err error) {
+	defer func() {
+		if r := recover(); r != nil {
+			err = ErrResolveSchema(fmt.Errorf("%v", r))
+		}
+	}()
+
+	return spec.ExpandSchema(sch, root, nil)
 }
 
 func (a *AnalyzedSchema) inferSimpleSchema() {
